@@ -143,7 +143,7 @@ impl Set {
 			Set::C06 => c06_end(&f, sc),
 			Set::C07 => c07_end(&f, sc, task_finished),
 			Set::C10 => c10_end(&f, sc),
-			Set::C09 => {}
+			Set::C09 => c09_end(&f, sc),
 		}
 	}
 }
@@ -410,4 +410,83 @@ fn c10_end(f: &Facts, sc: &Sc) {
 			}
 		}
 	}
+}
+
+fn cls_of(s: &str) -> Option<crate::model::Cls> {
+	use crate::model::Cls;
+	if s.starts_with("Pending") {
+		Some(Cls::Pending)
+	} else if s.starts_with("Running") {
+		Some(Cls::Running)
+	} else if s.starts_with("Finished") {
+		Some(Cls::Finished)
+	} else {
+		None
+	}
+}
+
+/// C09: the observation log must be a trace of the JobModel.
+fn c09_end(f: &Facts, sc: &Sc) {
+	use crate::model::{Obs, Out, Tracker};
+	let mut tr = Tracker::new(sc);
+	let mut now = 0u64;
+	let mut last_op = "none".to_string();
+	for (i, r) in f.log.iter().enumerate() {
+		let mut obs: Vec<Obs> = vec![];
+		if r.t > now {
+			now = r.t;
+			obs.push(Obs::Time { t: now });
+		}
+		match &r.ev {
+			Ev::Spawn { id, env, .. } => {
+				let hook = env.iter().find(|(k, _)| k == "VERIF_HOOK").and_then(|(_, v)| v.parse().ok());
+				obs.push(Obs::Out(Out::Spawn { id: *id, hook }));
+			}
+			Ev::SpawnFail { .. } => obs.push(Obs::Out(Out::SpawnFail)),
+			Ev::Sig { id, sig, ok } => obs.push(Obs::Out(Out::Sig { id: *id, sig: *sig, ok: *ok })),
+			Ev::Kill { id, ok } => obs.push(Obs::Out(Out::Kill { id: *id, ok: *ok })),
+			Ev::Reap { id, .. } => obs.push(Obs::Out(Out::Reap { id: *id })),
+			Ev::Drop { id } => obs.push(Obs::Out(Out::Drop { id: *id })),
+			Ev::WaitErr { .. } => return, // not modelled
+			Ev::Exit { id, .. } => obs.push(Obs::Exited { id: *id }),
+			Ev::User { tag, a, s, .. } => match *tag {
+				"op" => {
+					if let Some(o) = f.ops.iter().find(|o| o.log_pos == i) {
+						last_op = format!("{:?}", o.op);
+						obs.push(Obs::Send { idx: o.idx, op: o.op, to_dead: o.sent_to_dead });
+					}
+				}
+				"marker" => {
+					let cur = s.split("cur=").nth(1).and_then(cls_of);
+					let prev = s.split("prev=").nth(1).and_then(cls_of);
+					if let Some(cur) = cur {
+						obs.push(Obs::Out(Out::Marker { idx: *a as usize, cur, prev }));
+					}
+				}
+				"marker-end" => obs.push(Obs::Out(Out::MarkerEnd { idx: *a as usize })),
+				"hook" => obs.push(Obs::Out(Out::Hook { n: *a as usize })),
+				"errh" => obs.push(Obs::Out(Out::ErrH)),
+				"drop-handle" => obs.push(Obs::Close),
+				"quiescent" => {
+					let resolved: BTreeSet<usize> = f.resolved.iter().filter(|((_, w), p)| *w == 0 && **p < i).map(|((idx, _), _)| *idx).collect();
+					let sent: Vec<usize> = f.ops.iter().filter(|o| o.log_pos < i).map(|o| o.idx).collect();
+					obs.push(Obs::Quiescent { resolved, sent });
+				}
+				_ => {}
+			},
+		}
+		for o in obs {
+			if let Err(why) = tr.step(&o) {
+				let what = match &o {
+					Obs::Out(out) => format!("unexpected-{}", out.kind()),
+					Obs::Quiescent { .. } => "state-or-tickets-differ-at-quiescence".to_string(),
+					Obs::Send { .. } => "send-not-accepted".to_string(),
+					_ => "input-not-accepted".to_string(),
+				};
+				f.push(format!("C09/not-a-model-trace/{what}/after-{last_op}"), format!("log entry {i} ({}): {why}", r.render()));
+				return;
+			}
+		}
+	}
+	hs(|h| h.model_steps += tr.steps);
 }
